@@ -116,6 +116,9 @@ def run_harness(pid, tier, seed, state):
     cfg = PROPS[pid]
     if not cfg.get("harness"):
         return None, 0, ""
+    if os.environ.get("VERIF_STATIC_ONLY"):
+        # development aid (benign-change trials): theorems, regenerated obligations and pins only; never used by MANIFEST commands
+        return {"stats": {"evaluations": 0, "counters": {}}, "violations": [], "known": [], "distinct_nontrivial": 0, "findings": [], "crashes": 0}, 0, "static-only run: harness skipped\n"
     out = os.path.join(BIN, "run_%s.json" % pid)
     if os.path.exists(out):
         os.remove(out)
